@@ -1146,20 +1146,32 @@ def _lt(test, small, big):
 def c01_stop(ctx):
     f = F(ctx, "Parallel._wait_retrieval")
     g = cfg_of(f)
-    rets = nodes_of_type(f, ast.Return)
-    false_rets = [r for r in rets if is_const(r.value, False)]
-    ctx.need(false_rets, "_wait_retrieval has no `return False` (shape not recognised)")
-    for r in false_rets:
-        conds = g.conditions_at(g.nodes_of(r))
-        it = any(unparse(t) == "self._iterating" and not pol for (_, t, pol) in conds)
-        cnt = any(_lt(t, "n_completed_tasks", "n_dispatched_tasks") and not pol for (_, t, pol) in conds)
-        ctx.check(it, r, "retrieval stops only when the input is no longer being iterated",
-                  "retrieval can stop while _iterating is still true: tasks not yet dispatched are lost")
-        ctx.check(cnt, r, "retrieval stops only when completed >= dispatched",
-                  "retrieval can stop while dispatched tasks are still running: their results are lost")
-    for r in rets:
-        if not (isinstance(r.value, ast.Constant) and isinstance(r.value.value, bool)):
-            ctx.need(False, "_wait_retrieval returns a non-literal: shape not recognised")
+    # decided over the finite table of the four facts the answer depends on, whatever the shape of the function
+    # (early returns, one boolean expression, a result variable): its own tests and returns are folded (sa/table.py)
+    from ..table import run as run_table, Unknown
+    import itertools as _it
+    n_rows = 0
+    for iterating, pending, legacy, queued in _it.product((False, True), repeat=4):
+        env = {"self._iterating": iterating, "self.n_completed_tasks": 3 if not pending else 2, "self.n_dispatched_tasks": 3,
+               "self._backend.supports_retrieve_callback": not legacy, "self._jobs": (1,) if queued else (), "self._aborting": False,
+               "self._exception": False}
+        try:
+            kind, val = run_table(g, env, f)
+        except Unknown as e:
+            ctx.need(False, "_wait_retrieval: answer not understood (%s)" % e)
+            return
+        n_rows += 1
+        if kind != "return":
+            ctx.need(False, "_wait_retrieval does not return a value on some path")
+            return
+        if iterating and not val:
+            ctx.bad(f, "retrieval can stop while _iterating is still true: tasks not yet dispatched are lost", key=PAR + "::Parallel._wait_retrieval::stops while iterating")
+            break
+        if pending and not val:
+            ctx.bad(f, "retrieval can stop while dispatched tasks are still running (completed < dispatched): their results are lost", key=PAR + "::Parallel._wait_retrieval::stops while tasks are pending")
+            break
+    else:
+        ctx.ok(f, "retrieval keeps waiting whenever the input is still iterated or completed < dispatched (%d rows of the fact table)" % n_rows)
     # who clears _iterating
     allowed = {"Parallel.dispatch_next", "Parallel._start", "Parallel._get_sequential_output"}
     n = 0
